@@ -5,7 +5,8 @@
 
    Model: Front/SylvDiag.v ([sylv_diag], one function for the three branches; the closure
    [solve] with its state index_checked).  [F : Fld] is any field with conjugation and the two
-   tolerance tests ([far d] = "|d| > atol", [close] = numpy.isclose); Front/GaussQc.v gives
+   tolerance tests ([far d] = "|d| > atol", [close a b] = numpy.isclose(a, b, atol=atol), i.e.
+   |a - b| <= atol + 1e-5 |b|, the shared-eigenvalue test since fix e4d96a1); Front/GaussQc.v gives
    the executable instance (Gaussian rationals) used by the correspondence harness.
    [guard F k] is the guard of branch k: [far] for Dense and Sparse, "not exactly zero" for
    Symbolic. *)
